@@ -132,6 +132,40 @@ func runC01(prop string, res *Result, pool *DrvPool, r *Rng) {
 	for i := 0; i < n; i++ {
 		check("generated", GenDump(r, 6, 5), GenCfg(r))
 	}
+	// the attributes between the brackets of a goroutine header, in every order and with attributes
+	// newer runtimes add (", synctest bubble N", ", leaked"): the state is the first item, the wait
+	// time is the item of the form "N minutes", the goroutine is locked iff "locked to thread" is one
+	// of the items - wherever it stands
+	{
+		extras := [][]string{{}, {"locked to thread"}, {"7 minutes"}, {"7 minutes", "locked to thread"}, {"locked to thread", "7 minutes"},
+			{"locked to thread", "synctest bubble 3"}, {"7 minutes", "locked to thread", "synctest bubble 3"}, {"synctest bubble 3", "locked to thread"},
+			{"synctest bubble 3"}, {"leaked"}, {"locked to thread", "leaked"}, {"12 minutes", "leaked", "locked to thread"}}
+		for _, state := range []string{"chan receive", "select", "sync.Mutex.Lock", "GC worker (idle)"} {
+			for _, ex := range extras {
+				hdr := strings.Join(append([]string{state}, ex...), ", ")
+				txt := "goroutine 5 [" + hdr + "]:\nmain.f(0x1)\n\t/a/b.go:12 +0x1\n\ngoroutine 6 [" + state + "]:\nmain.f(0x1)\n\t/a/b.go:12 +0x1\n"
+				op := &ScanOp{Op: "scan", Data: hb(txt), Sched: []int{}, Final: "eof"}
+				got := implScan(op)
+				res.Count("header-attributes")
+				wantLocked, wantSleep := false, 0
+				for _, e := range ex {
+					if e == "locked to thread" {
+						wantLocked = true
+					}
+					if strings.HasSuffix(e, " minutes") {
+						fmt.Sscanf(e, "%d minutes", &wantSleep)
+					}
+				}
+				switch {
+				case got.Panic || got.Err != "eof" || len(got.Snap) != 2:
+					res.Violation(Finding{Stream: "scan", What: fmt.Sprintf("header [%s]: %d goroutines parsed, error %q", hdr, len(got.Snap), got.Err), Op: op, Got: got})
+				case got.Snap[0].Sig.State.String() != state || got.Snap[0].Sig.Locked != wantLocked || got.Snap[0].Sig.SMin != wantSleep || got.Snap[0].Sig.SMax != wantSleep:
+					res.Violation(Finding{Stream: "scan", What: fmt.Sprintf("header [%s]: parsed state %q locked=%v sleep=%d~%d, want state %q locked=%v sleep=%d", hdr, got.Snap[0].Sig.State.String(), got.Snap[0].Sig.Locked, got.Snap[0].Sig.SMin, got.Snap[0].Sig.SMax, state, wantLocked, wantSleep), Op: op, Got: got})
+				}
+				modelScan(pool, res, op, got, nil)
+			}
+		}
+	}
 	// a dump of many thousand goroutines (a server with a goroutine per connection)
 	{
 		var big []GSpec
